@@ -182,8 +182,11 @@ impl VM {
         self.instructions = code.instructions;
         self.ip = 0;
         self.bp = 0;
+        // a previous run that ended in an error may have left call frames and operands behind
+        self.frames.truncate(1);
         self.frames[0].ip = 0;
         self.frames[0].base_pointer = 0;
+        self.stack.clear();
 
         // Keep your friends close
         let constants = code.constants;
